@@ -329,6 +329,27 @@ def presets(ctx) -> None:
     a, v = sp.param_names[1:3]
     body = [core.src(x) for x in sp.body if not (isinstance(x, ast.Expr) and (isinstance(x.value, ast.Constant) or core.src(x).startswith('LOGGER.')))]
     ctx.check(body == [f'{a}.set_params(**{v})'], 'C01.presets', sp, f'SetParams.set applies the given params ({body})', sp.node, key='SetParams.set')
+    # the mapper action hands on exactly what the actor returned - whatever the payload is (a 1-tuple is a payload too):
+    # every returned value is the `actor.apply(*args)` call itself or a local bound once, to that call
+    ap = prog.func(f'{USER}:Apply.__call__')
+    a = ap.param_names[1]
+    va = ap.node.args.vararg.arg if ap.node.args.vararg else None
+    want = f'{a}.apply(*{va})'
+    stores: dict = {}
+    for n in core.walk_local(ap.node):
+        for t in ast.walk(n) if isinstance(n, (ast.Assign, ast.AugAssign, ast.AnnAssign, ast.For, ast.NamedExpr, ast.With)) else ():
+            if isinstance(t, ast.Name) and isinstance(t.ctx, ast.Store):
+                stores.setdefault(t.id, set()).add(n)
+    rets = [r for r in core.walk_local(ap.node) if isinstance(r, ast.Return)]
+    okr = bool(rets)
+    for r in rets:
+        v = r.value
+        if isinstance(v, ast.Name):
+            ds = list(stores.get(v.id, ()))
+            okr = okr and len(ds) == 1 and isinstance(ds[0], ast.Assign) and len(ds[0].targets) == 1 and isinstance(ds[0].targets[0], ast.Name) and core.src(ds[0].value) == want
+        else:
+            okr = okr and core.src(v) == want
+    ctx.check(okr, 'C01.presets', ap, f'Apply returns the result of `{want}` unchanged (no re-binding, unwrapping or conversion of the payload)', ap.node, key='Apply.call:passthrough')
     # one action object per functor: sharing an action instance between nodes makes structurally equal functors *identical*
     # instructions (Index.instructions groups adjacent keys by instruction equality), folding two tasks into one
     add = prog.func(f'{COMPILER}:Table.add')
